@@ -494,6 +494,8 @@ Definition att_p2p (s : state) (sid u v : N) (bkg : bool) : state * list out :=
   | Some x0 =>
     let x := if t_loaded x0 then x0 else load_top x0 in
     if existsb (fun e => N.eqb sid (fst e)) (t_sess x) then (s, [Skipped]) else
+    (* re-subscription after a p2p unsubscribe is not modelled (the model never deletes a p2p subscription) *)
+    if negb (cached x u) then (s, [Skipped]) else
     let p := get_pud x u in
     let x1 := set_pud u (p_set_online (p_online p + b2z (negb bkg)) p) (set_tsess (t_sess x ++ [(sid, u)]) x) in
     (put_top t x1 s, [Ctrl sid 200])
